@@ -327,9 +327,9 @@ def parse_de_content(ty, text, dto):
             fields.append({"tag": tag, "field": var, "shape": "flat", "member_type": mty})
         else:
             tag, v1, v2 = m.group(1), m.group(2), m.group(3)
-            if v1 != v2:
-                fail(f"xml: DeserializeContent for {ty}: arm {tag} checks {v1} but assigns {v2}")
-            f = {"tag": tag, "field": v1, "shape": "wrapped" if kind == "wrapped" else "single"}
+            # the duplicate guard `if v1.is_some()` must test the variable the arm assigns (v2); a guard on another
+            # declared variable is recorded (table obligation `C13_dup_guards`), anything else is not a template shape
+            f = {"tag": tag, "field": v2, "guard": v1, "shape": "wrapped" if kind == "wrapped" else "single"}
             if kind == "ts":
                 f["ts"] = m.group(4)
             if kind == "wrapped":
@@ -371,6 +371,9 @@ def parse_de_content(ty, text, dto):
         else:
             pres[m.group(1)] = (kind,)
     letd = dict(lets)
+    for f in fields:
+        if "guard" in f and f["guard"] not in letd:
+            fail(f"xml: DeserializeContent for {ty}: arm {f['tag']} guards on undeclared variable {f['guard']}")
     if len(letd) != len(lets):
         fail(f"xml: DeserializeContent for {ty}: a variable is declared twice")
     if set(letd) != set(pres) or set(f["field"] for f in fields) != set(letd) or len(fields) != len(lets):
@@ -810,6 +813,25 @@ def depth_of(defs):
     return max([go(t, []) for t in defs], default=0)
 
 
+def de_guard_extra(de_defs, tys):
+    """arms whose duplicate-field guard tests the variable of ANOTHER member: (type, arm tag, tag of the member tested)"""
+    items = []
+    for t in tys:
+        d = de_defs.get(t)
+        if not d or d[0] != "struct":
+            continue
+        by_var = {f["field"]: f["tag"] for f in d[1]}
+        for f in d[1]:
+            if "guard" in f and f["guard"] != f["field"]:
+                items.append(f"(.{t}, {tag_ident(f['tag'])}, {tag_ident(by_var[f['guard']])})")
+    return "\n".join([
+        "",
+        "/-- arms of generated struct deserialisers whose `if x.is_some() { return Err(DuplicateField) }` guard tests the",
+        "variable of another member than the one the arm assigns: (type, element name of the arm, element name of the",
+        "member whose variable is tested). The codegen template only prints guards on the arm's own variable. -/",
+        "def deGuardMismatch : List (Ty × Bytes × Bytes) := [" + ", ".join(items) + "]"])
+
+
 def emit_table(modname, doc, fn_prefix, defs, roots, tys, tyset, with_ns, extra=""):
     L = [f"/- GENERATED by translate/xml_tables.py — do not edit. {doc} -/",
          "import S3V.Gen.XmlNames", "", "namespace S3V.XmlGen", "open S3V.Xml", ""]
@@ -988,7 +1010,7 @@ def run(repo, verif_root):
     write_if_changed(os.path.join(gen, "XmlDe.lean"), emit_table(
         "XmlDe", "Deserialiser schema per type: what `impl DeserializeContent for T` / `impl Deserialize for T` accept "
         f"({len(de)} DeserializeContent impls, {len(de_root)} Deserialize impls read).",
-        "de", de_defs, de_root, tys, tyset, False))
+        "de", de_defs, de_root, tys, tyset, False, de_guard_extra(de_defs, tys)))
     extra = ["", "/-- types of s3s that have no structure/union of the Smithy S3 model behind them -/",
              "def noSmithy : List Ty := [" + ", ".join("." + t for t in no_smithy) + "]", "",
              "/-- shapes that come from data/sts.json (reduced by codegen) rather than data/s3.json -/",
@@ -1015,8 +1037,15 @@ def run(repo, verif_root):
         return {"kind": "union", "variants": [{k: v[k] for k in ("tag", "kind", "ref") if k in v} for v in d[1]]}
 
     both = [t for t in tys if t in ser_defs and t in de_defs]
+    def smithy_order(t):
+        d = sm_defs.get(t)
+        if not d or d[0] != "struct":
+            return None
+        return [f["tag"] for f in d[1]]  # JSON member order of the Smithy model = declaration order
+
     js = {"types": {t: {"ser": js_def(ser_defs.get(t)), "de": js_def(de_defs.get(t)),
-                        "ser_root": ser_root.get(t), "de_root": de_root.get(t)} for t in tys},
+                        "ser_root": ser_root.get(t), "de_root": de_root.get(t),
+                        "smithy_order": smithy_order(t)} for t in tys},
           "both": both}
     write_if_changed(os.path.join(verif_root, "harness", "src", "gen_xml_tables.json"), json.dumps(js, indent=0, sort_keys=True) + "\n")
 
